@@ -292,6 +292,32 @@ def _fold_constant_switches(mir):
         if len(ds) != 1 or ds[0] is None:
             return None
         rv = ds[0]["rv"]
+        if rv["k"] == "discr" and rv["place"]["p"] == ["*"] and rv.get("enum"):
+            # the discriminant read through a shared reference to a single-definition aggregate (`match (state, &error)`)
+            rd = defs.get(rv["place"]["l"], [])
+            cur = rd[0] if len(rd) == 1 and rd[0] is not None else None
+            hops = 0
+            while cur is not None and hops < 4 and cur["rv"]["k"] == "use" and (cur["rv"]["op"].get("copy") or cur["rv"]["op"].get("move")) \
+                    and not (cur["rv"]["op"].get("copy") or cur["rv"]["op"].get("move"))["p"]:
+                nd = defs.get((cur["rv"]["op"].get("copy") or cur["rv"]["op"].get("move"))["l"], [])
+                cur = nd[0] if len(nd) == 1 and nd[0] is not None else None
+                hops += 1
+            if cur is not None and cur["rv"]["k"] == "ref" and not cur["rv"].get("mut") and not cur["rv"]["place"]["p"]:
+                tgt = cur["rv"]["place"]["l"]
+                src = defs.get(tgt, [])
+                # the referent may be moved from a single-definition aggregate (`error` parameter <- Some(e) at the call)
+                hops = 0
+                while len(src) == 1 and src[0] is not None and src[0]["rv"]["k"] == "use" and hops < 4:
+                    pl2 = src[0]["rv"]["op"].get("copy") or src[0]["rv"]["op"].get("move")
+                    if pl2 is None or pl2["p"]:
+                        break
+                    src = defs.get(pl2["l"], [])
+                    hops += 1
+                if len(src) == 1 and src[0] is not None and src[0]["rv"]["k"] == "agg" and src[0]["rv"].get("variant"):
+                    for ent in rv["enum"]["variants"]:
+                        if ent[1] == src[0]["rv"]["variant"]:
+                            return ent[0]
+            return None
         if rv["k"] == "discr" and not rv["place"]["p"] and rv.get("enum"):
             src = defs.get(rv["place"]["l"], [])
             if len(src) == 1 and src[0] is not None and src[0]["rv"]["k"] == "agg" and src[0]["rv"].get("variant") and rv["place"]["l"] not in borrowed:
@@ -478,6 +504,7 @@ def scalarize_tuples(prog, body):
                 if k not in ("target", "unwind", "targets", "otherwise", "k"):
                     t[k] = rewrite(t[k])
     raw["scalarized"] = sorted(cands)
+    _fold_constant_switches(mir)
     nb = Body(prog, raw, body.crate)
     nb.children = body.children
     return nb
